@@ -127,6 +127,15 @@ CLAIMED = {
             "are known findings: F01b (cancelled requeue), F03d (cancelled _run_consumer drops its message), F03e "
             "(cancel after disposition), F14a (finish returns others' messages).",
             "Real-time bound, Redis maintenance/background consumer, Worker.run call order are not decided."),
+    "C18": ("deductive verification of Depends.__init__/override/_update_subdependencies (quantified invariant over the "
+            "signature as an array of parameter records, with a ghost witness map and a proved cut), Depends.resolve and the "
+            "dependency part of actor_run",
+            "Proof that the sub-dependency map is exactly {name: declared dependency} over the provider's positional-or-keyword "
+            "and keyword-only parameters, that positional-only dependencies and default-less plain parameters are rejected at "
+            "declaration, that override re-derives the map, that resolve creates one resolution per sub-dependency and calls the "
+            "provider exactly once returning its value, and that any provider failure fails the execution (actor_run).",
+            "inspect.signature / get_dependency / asyncify / asyncio.gather by assumed contracts (deterministic, ordered); value flow "
+            "through gather and dict(zip()) is not modelled; run_in_process not decided."),
 }
 NOT_APPLICABLE_REASON = ("no contract built: the converter / dependency code needs signatures as sequences of parameter records, "
                          "insertion-ordered dicts and side-effecting comprehensions over symbolic collections, which the engine "
